@@ -236,6 +236,8 @@ PROPS["C01"] = dict(
           "Distinct = distinct case."),
     assumptions=["valid MQTT filters ('#' last, wildcards fill a level)", "topic names non-empty and wildcard-free", "'$' topics not special-cased (the broker prefixes every topic with the mount point anyway)"],
     runs=[
+        # at the very moment a session holds its UNSUBACK a publish from another client is sent and acknowledged: not delivered to it, delivered to a session still subscribed
+        dict(name="unsuback", pkg="c01", run="TestPublishAtUnsubAck", checks=dict(quick=96, thorough=1600), shards=8, timeout=dict(quick=400, thorough=2400), shrinktime="60s"),
         dict(name="regress", pkg="c01", run="TestRegress"),
         dict(name="pairs", pkg="c01", run="TestPairs", shards=dict(quick=2, thorough=4)),
         dict(name="sets", pkg="c01", run="TestSets", checks=dict(quick=24000, thorough=300000), shards=dict(quick=8, thorough=16), timeout=dict(quick=300, thorough=1800)),
@@ -413,6 +415,8 @@ PROPS["C14"] = dict(
           "unreachable remote nodes. Non-trivial = the destination set contains a remote node. Distinct = distinct case."),
     assumptions=["unreachable = the transport's Call returns an error without invoking the RPC", "QoS 0 publishes carry no acknowledgement to judge"],
     runs=[
+        # a destination whose write panics (child processes; package c05)
+        dict(name="panic", pkg="c05", run="TestPanickingWrite$", timeout=400),
         # a destination that stalls for seconds and then refuses is a failed destination (package c05)
         dict(name="hang", pkg="c05", run="TestHangingRemote", timeout=400),
         dict(name="regress", pkg="c14", run="TestRegress", timeout=300),
@@ -500,6 +504,8 @@ PROPS["C07"] = dict(
           "present topics are prefix-related; e2e = a subscribe happens after a clear, or while prefix-related topics are retained. Distinct = distinct case."),
     assumptions=["one SUBSCRIBE replays the retained messages once per filter it carries", "gossip delivered before subscribing on another node"],
     runs=[
+        # at the very moment a publisher holds the acknowledgement of a retained publish / clear another client subscribes: it gets the new value / nothing older
+        dict(name="puback", pkg="c07", run="TestSubscribeAtPubAck", checks=dict(quick=240, thorough=4000), shards=8, timeout=dict(quick=400, thorough=2400), shrinktime="60s"),
         # a node that has held 70 000 / 300 000 topic names (most cleared again) still retains a publish on a new name; checkpoints around powers of 2 and 10
         dict(name="lifetime", pkg="c07", run="TestLifetime", timeout=dict(quick=400, thorough=2400)),
         dict(name="regress", pkg="c07", run="TestRegress", timeout=300),
@@ -649,10 +655,12 @@ PROPS["C20"] = dict(
 
 # Later additions to the checks (rounds 7 and 8), appended to the manifest text of the property
 ADDITIONS = {
+    "C01": "Run unsuback: at the very moment a session has received its UNSUBACK (hook on the fake connection) another client publishes and is acknowledged: the publish is not delivered to the session that left (unless a remaining filter matches) and is delivered to a session still subscribed.",
+    "C14": "Run panic (package c05): a destination whose write panics; the unchanged broker dies (nothing acknowledged), a survivor must not acknowledge.",
     "C02": "Run suback: a publish from another connection sent, and acknowledged, at the very moment the subscriber has received its SUBACK (hook on the fake connection) must reach that subscriber (1-3 filters, 0-60 retained messages replayed in between, QoS 1/2).",
     "C04": "Run overlap: 1728 enumerated scenarios of a second sweep that overlaps the callbacks of a running one (from another goroutine or from inside a callback) with an entry registered in between; the second sweep must expire it.",
     "C05": "Runs panic / panicrandom: the failing write panics instead of returning an error; the case runs in a child process, which either dies (nothing acknowledged) or survives and is judged by the same oracle.",
-    "C07": "Run lifetime: a node that has held 70 000 / 300 000 topic names (most cleared again) must still retain, replay and clear a publish on a new name, on the writer and on a mirror; checkpoints around powers of 2 and 10.",
+    "C07": "Run lifetime: a node that has held 70 000 / 300 000 topic names (most cleared again) must still retain, replay and clear a publish on a new name, on the writer and on a mirror; checkpoints around powers of 2 and 10. Run puback: at the very moment a publisher has received the acknowledgement of a retained publish (or clear) another client subscribes: it is sent the new value (nothing older after a clear).",
     "C08": "Run volume: 70 000 / 300 000 changes of each kind made on three origins, delivered in order, reversed and shuffled (batches, duplicates) to three replicas that must all list what the reference table lists.",
     "C09": "Run fingerprints: among 200 000 / 1 500 000 real broadcasts, pairs of different messages that agree under one of 12 32-bit fingerprints (CRC-32 x3, FNV, Adler, truncated MD5/SHA-1/SHA-256, ...) are found by birthday search and delivered to a fresh receiver adjacent, reversed, with duplicates and 300 messages apart; the receiver must list what the reference table of the decoded messages lists.",
     "C10": "Run sizes: every snapshot size from 1 to 1100 (thorough 4200) sessions, twice as many subscriptions, half as many retained messages (with removals), merged by a fresh node and by a node that lives on snapshots alone.",
